@@ -276,6 +276,11 @@ def finish(pid, prop, tier, seed, t0, b, hyg, ps, cases, impl, failures, disagre
 
 def replay(pid, prop, path):
     obj = json.load(open(path))
+    if prop.special:
+        # tool / schedule / stress checks: re-run the check with the recorded seed and tier; the
+        # recorded case is printed for comparison
+        print('recorded:', json.dumps(obj.get('case', obj.get('broken', '')))[:1500])
+        return run_check(pid, prop, obj.get('tier', 'quick'), obj.get('seed', 20260930))
     b = infra.build()
     if obj.get('kind') == 'failing-input':
         ln = obj['case']['line']
